@@ -3,6 +3,7 @@
 // Machine-checked contracts for this package (comment-only; compiled only with
 // the build tag `verif`). Read by /verif/engine (govc); see /verif/DESIGN.md.
 package mem2reg
+
 //
 // ---- statement-tree walkers descend into every nested block -------------------------------
 // (type-derived: for the statement handled by one iteration every field of type
@@ -20,3 +21,29 @@ package mem2reg
 //@   ghostcall collectEmitsInBlock visitedBlock block
 //@   traverse stepmark 1 block ir.Block visitedBlock($)
 //
+//
+// ---- deterministic numbering of the expressions the pass appends (C12, C18) -------------------
+//
+// These functions append one expression (zero value, phi) per promoted variable;
+// the numbering of the new expressions - and with it the emitted module - must
+// not depend on Go's randomised map iteration order.
+//
+//@ func newPhiWalker
+//@   mode bv
+//@   tags C12 C18
+//@   nomaprange
+//
+//@ func (*phiWalker).handleIf
+//@   mode bv
+//@   tags C12 C18
+//@   nomaprange
+//
+//@ func (*phiWalker).handleSwitch
+//@   mode bv
+//@   tags C12 C18
+//@   nomaprange
+//
+//@ func initialValues
+//@   mode bv
+//@   tags C12 C18
+//@   nomaprange
